@@ -558,8 +558,21 @@ impl Axecutor {
         data: Vec<u8>,
         name: Option<String>,
     ) -> Result<(), AxError> {
+        let new_len = data.len() as u64;
+        if new_len > 0 && start.checked_add(new_len - 1).is_none() {
+            return Err(AxError::from(format!(
+                "cannot create memory area {} with start={:#x}, length={:#x}: it does not fit in the address space",
+                name.unwrap_or_else(|| "<unnamed>".to_string()), start, new_len
+            )));
+        }
+
         for area in &self.state.memory {
-            if start >= area.start && start < area.start + area.length {
+            // Two areas overlap if either one starts inside the other; checking only the new
+            // start would accept an area that begins below an existing one and extends into it
+            let starts_inside_existing = area.contains(start);
+            let existing_starts_inside_new =
+                area.length > 0 && area.start > start && area.start - start < new_len;
+            if starts_inside_existing || existing_starts_inside_new {
                 let overlap_name = area
                     .name
                     .to_owned()
